@@ -116,6 +116,8 @@ Inductive bop :=
 | BFind (h start stop needle : Z)
 | BReverse (h off len : Z)
 | BSwap (h i j : Z)
+| BFsClose (h : Z)     (* fs.close applied to a handle of this table: these programs open no file, so it must refuse *)
+| BNetClose (h : Z)    (* net.close: documented no-op for anything that is not a socket or listener *)
 | BNonInt.   (* any std.bytes call with a non-int where a handle / offset / length / integer value is required,
                a non-number as a float value, a non-string as a string: get_handle / get_int / get_string fail *)
 
@@ -334,6 +336,8 @@ Definition b_step (s : bstate) (o : bop) : bstate * bres :=
           | _, _ => (s, BErr)
           end
       end
+  | BFsClose _ => (s, BErr)                       (* and must leave the byte buffer (if any) alone *)
+  | BNetClose h => (s, if (h <? 0)%Z then BErr else BOkUnit)
   | BNonInt => (s, BErr)
   end.
 
@@ -510,6 +514,8 @@ Definition bspec_step (m : smap) (o : bop) (hint : bres) : smap * bres :=
           | _, _ => (m, BErr)
           end
       end
+  | BFsClose _ => (m, BErr)
+  | BNetClose h => (m, if (h <? 0)%Z then BErr else BOkUnit)
   | BNonInt => (m, BErr)
   end.
 
